@@ -54,8 +54,13 @@ Proof. vm_compute. split; reflexivity. Qed.
 Example t_mon_alias :
   forallb (fun op => alias_vs_fresh (fun c => IMon op c (Rg 0)) s22) [ONeg; OExp; OLog; OTanh; OPowC 3; OMlgamma 2] = true.
 Proof. vm_compute. reflexivity. Qed.
-Example t_set_self : alias_vs_fresh (fun c => ISet c (Rg 0)) s22 = true /\ set_ok 0 (Rg 0) s22 = true.
-Proof. vm_compute. split; reflexivity. Qed.
+Example t_set_self : alias_vs_fresh (fun c => ISet c (Rg 0)) s22 = true.
+Proof. vm_compute. reflexivity. Qed.
+(* Set onto receivers of equal N and lower / higher Order, other N: all reallocate (HEAD d9fca78), none panics *)
+Example t_set_any_receiver :
+  forallb (fun r => agreeb 0 9 (exec FlZ idZ (ISet 0 (Rg 1)) (upd s22 0 r)) (exec FlZ idZ (ISet 9 (Rg 1)) s22))
+          [x1; x2; mkReg K64 5 0 2 [] []; mkReg K64 5 1 3 [1; 2; 3] []; mkReg K64 1 2 1 [1] [[1]]] = true.
+Proof. vm_compute. reflexivity. Qed.
 Example t_composites :
   alias_vs_fresh (fun c => ILogistic c (Rg 0)) s22 && alias_vs_fresh (fun c => ISigmoid c (Rg 0) 3) s22 &&
   alias_vs_fresh (fun c => ILog1pExp c (Rg 0)) s22 && alias_vs_fresh (fun c => ILogAdd c (Rg 0) (Rg 1) 3) s22 &&
@@ -63,7 +68,25 @@ Example t_composites :
   alias_vs_fresh (fun c => IMin c (Rg 0) (Rg 1)) s22 && alias_vs_fresh (fun c => IMax c (Rg 0) (Rg 1)) s22 &&
   alias_vs_fresh (fun c => IAbs c (Rg 0)) s22 = true.
 Proof. vm_compute. reflexivity. Qed.
-(* Log1pExp third branch (18 < v <= 33.3) with the receiver as argument: differs *)
+(* Log1pExp third branch (18 < v <= 33.3) with the receiver as argument: agrees since HEAD 7035970 *)
 Example t_log1pexp_branch3 :
-  alias_vs_fresh (fun c => ILog1pExp c (Rg 0)) (upd st0 0 (mkReg K64 20 1 1 [1] [])) = false.
+  alias_vs_fresh (fun c => ILog1pExp c (Rg 0)) (upd st0 0 (mkReg K64 20 1 1 [1] [])) = true.
+Proof. vm_compute. reflexivity. Qed.
+
+(* reductions with the receiver among the elements: all differ from a fresh receiver, except Mnorm at position (0,0) *)
+Definition s3 := upd (upd (upd st0 0 x2) 1 y2) 2 (mkReg K64 2 2 2 [1; 1] [[0; 1]; [1; 0]]).
+Example t_reductions_receiver_in_vector :
+  map (fun i => alias_vs_fresh i s3)
+      [(fun c => IVmean c [Rg 0; Rg 1; Rg 2]); (fun c => IVdotV c [Rg 0; Rg 1] [Rg 1; Rg 2] 7); (fun c => IVnorm c [Rg 0; Rg 1] 7);
+       (fun c => IMtrace c [Rg 0; Rg 1]); (fun c => ISmoothMax c [Rg 0; Rg 1] 2 5 6)]
+  = [false; false; false; false; false].
+Proof. vm_compute. reflexivity. Qed.
+Example t_mnorm_receiver_first_element :
+  alias_vs_fresh (fun c => IMnorm c [Rg 0; Rg 1; Rg 2] 7) s3 = true /\
+  agreeb 1 9 (exec FlZ idZ (IMnorm 1 [Rg 0; Rg 1; Rg 2] 7) s3) (exec FlZ idZ (IMnorm 9 [Rg 0; Rg 1; Rg 2] 7) s3) = false.
+Proof. vm_compute. split; reflexivity. Qed.
+(* Sigmoid with the scratch argument equal to the argument: receiver as with a separate scratch (branch x < 0) *)
+Example t_sigmoid_scratch_is_argument :
+  let s := upd s22 0 (mkReg K64 (-5) 2 2 [1; 3] [[2; 7]; [7; 4]]) in
+  agreeb 4 4 (exec FlZ idZ (ISigmoid 4 (Rg 0) 0) s) (exec FlZ idZ (ISigmoid 4 (Rg 0) 3) s) = true.
 Proof. vm_compute. reflexivity. Qed.
